@@ -123,7 +123,14 @@ def one_input(ctx, budget, script, kind, errors, expect_canary=False):
             warnings.simplefilter('ignore')
             f0 = list(warnings.filters)          # the caller's warnings set-up as parse_model finds it
             try:
-                symbols = fsic.parse_model(script)
+                # "with syntax checking on": the default, or any true value the caller happens to hold (a NumPy boolean, 1)
+                from .common import h64
+                how = h64(['cs', script]) % 6
+                case['check_syntax'] = ['omitted', 'omitted', 'True', '1', 'np.True_', 'np.bool_(1)'][how]
+                if how < 2:
+                    symbols = fsic.parse_model(script)
+                else:
+                    symbols = fsic.parse_model(script, check_syntax=[True, 1, np.True_, np.bool_(1)][how - 2])
             finally:
                 if list(warnings.filters) != f0:
                     filters_leak = [f for f in warnings.filters if f not in f0][:2] or 'filters removed / reordered'
